@@ -157,7 +157,7 @@ def _run_one(args):
     return rc, outp[-4000:]
 
 
-def run_dyn(exe, script_text, tag, timeout=3000, parallel=True):
+def run_dyn(exe, script_text, tag, timeout=14400, parallel=True):    # (children have their own 20 s alarm: the driver cannot hang)
     """Execute scripts on the real library.  Scripts are independent (each runs in its own forked
     child of the driver), so the file is split over several driver processes."""
     import concurrent.futures as cf
